@@ -164,6 +164,9 @@ def run_plan(module, plan, *, prop=None) -> Ctx:
     """Execute one plan under a fresh context; StopRun ends it normally."""
     ctx = Ctx(prop=prop or plan.get("property", module.PROPERTY),
               scenario=plan.get("scenario", ""), seed=plan.get("seed", 0))
+    from . import oracle
+
+    oracle.chaos_reset()
     try:
         with warnings.catch_warnings():
             warnings.simplefilter("ignore")
